@@ -503,6 +503,15 @@ class TObj(Obj):
         })
 
 
+class TSeq(TObj):
+    """A 1-D tensor of times: shape-only, but indexable / sliceable like the list of its values."""
+
+    def __init__(self, values, requires_grad=False):
+        super().__init__((len(values),), "ts-tensor", requires_grad)
+        vals = [Fraction(v) for v in values]
+        self.getitem_hook = lambda it, obj, idx, node, fi: vals[idx]
+
+
 def _size(sh, a, node, fi):
     if not a:
         return sh
@@ -533,12 +542,21 @@ class ContractHooks(solvers.QuietHooks):
             return None
         return solvers.QuietHooks.external_call(self, interp, dotted, args, kwargs, node, fi)
 
+    def isinstance(self, interp, obj, classes):
+        for c in classes:
+            if isinstance(c, ClassRef) and c.cls.name == "AdjointSDE":
+                return False
+        return NotImplemented
+
     def on_call(self, interp, callee, args, kwargs, node, fi):
         from ..interp import BoundMethod
         if isinstance(callee, ClassRef) and callee.cls.name == "BrownianInterval":
             self.default_bm.append(dict(kwargs))
             return Obj("default-bm", attrs={"levy_area_approximation": kwargs.get("levy_area_approximation"),
                                             "shape": kwargs.get("size")})
+        if isinstance(callee, BoundMethod) and callee.fi.name in ("integrate", "init_extra_solver_state"):
+            # validation is over: the solver has been constructed
+            raise SimRaise("_IntegrationStarts", "validation phase passed", node, fi)
         if isinstance(callee, BoundMethod) and callee.fi.cls is not None and callee.fi.cls.name == "SDELogqp" \
                 and callee.fi.name != "__init__":
             # shape semantics of the logqp wrapper (its values are C18's business): one extra state channel
@@ -582,26 +600,33 @@ def make_user_sde(noise_type="diagonal", sde_type="ito", B=4, d=3, m=3, methods=
 
 
 def eval_check_contract(model, sde=None, y0=None, ts=None, bm="given", method=None, adaptive=False, options=None,
-                        names=None, logqp=False, m=3, B=4):
-    cc = model.func(SDEINT, "check_contract")
+                        names=None, logqp=False, m=3, B=4, dt=None, entry=(SDEINT, "sdeint"), levy="space-time"):
+    """Abstractly evaluate the whole validation phase of sdeint / sdeint_adjoint on shape-only tensors: check_contract,
+    assert_no_grad, methods.select and the solver's constructor chain run for real; integration itself is cut off."""
+    fi = model.func(*entry)
     hooks = ContractHooks()
     it = Interp(model, hooks)
     sde = sde or make_user_sde()
     y0 = TObj((4, 3), "y0") if y0 is None else y0
     ts = [Fraction(0), Fraction(1, 2), Fraction(1)] if ts is None else ts
     if bm == "given":
-        bm = Obj("bm", attrs={"shape": (Fraction(B), Fraction(m)), "levy_area_approximation": "space-time"})
+        bm = Obj("bm", attrs={"shape": (Fraction(B), Fraction(m)), "levy_area_approximation": levy})
+    kw = dict(sde=sde, y0=y0, ts=ts, bm=bm, method=method, adaptive=adaptive, options=options, names=names, logqp=logqp,
+              dt=Fraction(1, 100) if dt is None else dt)
     try:
-        out = it.call_function(cc, [sde, y0, ts, bm, method, adaptive, options, names, logqp], {})
+        out = it.call_function(fi, [], kw)
         return ("ok", out, hooks)
     except SimRaise as e:
+        if e.exc_name == "_IntegrationStarts":
+            return ("ok", None, hooks)
         return ("raise", e.exc_name, e.message)
 
 
 def r19_7(ctx):
     rep, model = ctx.rep, ctx.model
-    rep.rule("R19.7", "check_contract evaluated abstractly on shape-only tensors: well-formed inputs pass; every class of "
-                      "malformed argument raises ValueError")
+    rep.rule("R19.7", "validation phase of sdeint (check_contract, assert_no_grad, methods.select, solver constructor) "
+                      "evaluated abstractly on shape-only tensors: well-formed inputs reach integration; every class of "
+                      "malformed argument or unsupported combination raises ValueError before it")
     cc = model.func(SDEINT, "check_contract")
     rep.analysed(cc)
     good = [
@@ -617,6 +642,9 @@ def r19_7(ctx):
         ("logqp, default bm", dict(sde=make_user_sde("diagonal", methods=("f", "g", "h")), logqp=True, bm=None)),
         ("logqp, general noise, bm given", dict(sde=make_user_sde("general", methods=("f", "g", "h")), logqp=True)),
         ("explicit method", dict(method="euler")),
+        ("ts a tensor", dict(ts=TSeq((0, 1, 2)))),
+        ("srk with space-time Levy area", dict(method="srk")),
+        ("log_ode with Foster area", dict(sde=make_user_sde("general", "stratonovich"), method="log_ode", levy="foster")),
     ]
     for name, kw in good:
         r = eval_check_contract(model, **kw)
@@ -654,6 +682,14 @@ def r19_7(ctx):
         ("missing sde_type", dict(sde=Obj("user", attrs={"noise_type": "diagonal"}))),
         ("unknown method", dict(method="runge")),
         ("logqp without prior drift", dict(sde=make_user_sde(methods=("f", "g")), logqp=True)),
+        ("ts requires grad", dict(ts=TSeq((0, 1, 2), requires_grad=True))),
+        ("dt requires grad", dict(dt=TObj((), "dt", requires_grad=True))),
+        ("method of the other SDE type", dict(method="midpoint")),
+        ("srk with general noise", dict(sde=make_user_sde("general"), method="srk")),
+        ("srk without space-time Levy area", dict(method="srk", levy="none")),
+        ("log_ode without Levy area", dict(sde=make_user_sde("general", "stratonovich"), method="log_ode", levy="space-time")),
+        ("adjoint-only method as forward method", dict(sde=make_user_sde("general", "stratonovich"), method="adjoint_reversible_heun")),
+        ("scalar noise, Brownian motion with two channels and matching diffusion", dict(sde=make_user_sde("scalar", g_shape=(4, 3, 2)), m=2)),
     ]
     for name, kw in bad:
         r = eval_check_contract(model, **kw)
@@ -662,7 +698,7 @@ def r19_7(ctx):
                   f"malformed argument ({name}) is " + ("accepted: nothing rejects it before integration" if r[0] == "ok"
                                                         else f"rejected with {r[1]} instead of ValueError: {r[2][:80]}"),
                   "raises ValueError")
-    ctx.floor("R19.7", 35)
+    ctx.floor("R19.7", 45)
 
 
 _old_run = run
